@@ -54,7 +54,8 @@ Qed.
 Lemma coins_ops_keys txs op : In op (coins_ops txs) -> Qcoins (fst op) = true.
 Proof.
   unfold coins_ops. rewrite in_flat_map. intros [t [_ I]]. unfold coins_ops_tx in I.
-  destruct (coins_target t); [destruct I as [<-|[]]; apply coins_key_Q|destruct I].
+  destruct (coins_target t); [|destruct I]. destruct (t_rty t =? ExecOk); [|destruct I].
+  destruct I as [<-|[]]. apply coins_key_Q.
 Qed.
 
 Lemma coins_del_ops_keys txs op : In op (coins_del_ops txs) -> Qcoins (fst op) = true.
@@ -536,8 +537,6 @@ Proof.
 Qed.
 
 (** ** the counters come back *)
-Hypothesis G : all_local_ok b = true.
-
 Lemma counter_back k (oa od : cops) :
   get k m1 = (if op_touch k oa then Some (VInt (cntz m k + op_sum k oa)) else get k m) ->
   get k m2 = (if op_touch k od then Some (VInt (cntz m1 k + op_sum k od)) else get k m1) ->
@@ -554,7 +553,7 @@ Proof.
   - rewrite E1. reflexivity.
 Qed.
 
-Lemma del_after_add_partial : obs_eq m2 m.
+Lemma del_after_add_obs_id : obs_eq m2 m.
 Proof.
   apply obs_eq_by_key; [apply S2|exact Sm|]. intro k.
   destruct (is_prefix P_mkl k) eqn:K.
@@ -567,8 +566,8 @@ Proof.
       * rewrite ai_ops_neg. apply op_sum_neg.
     + apply (counter_back k cA cD (coins_after_add k Q) (coins_after_del k Q)); [| |exact C];
         unfold cA, cD; destruct (c_execlocal c); try reflexivity.
-      * unfold txs. rewrite (coins_del_ops_guard _ G), op_touch_neg. apply op_touch_rev.
-      * unfold txs. rewrite (coins_del_ops_guard _ G), op_sum_neg, op_sum_rev. reflexivity.
+      * unfold txs. rewrite coins_del_ops_neg, op_touch_neg. apply op_touch_rev.
+      * unfold txs. rewrite coins_del_ops_neg, op_sum_neg, op_sum_rev. reflexivity.
   - assert (P : plain k = true) by (unfold plain; rewrite K, C; reflexivity).
     rewrite (plain_restore k P). reflexivity.
 Qed.
